@@ -153,7 +153,10 @@ def handle (ws : List String) : String :=
       | some pix =>
         let s := islandSummary nc x0 x1 y0 y1 pix
         let inb := pix.all (inBox x0 x1 y0 y1)
-        s!"{s.components} {s.pixels} {showOptInt s.peak} {s.xWidth} {s.yWidth} {if inb then 1 else 0}"
+        let pp := match peakPix pix with
+          | some p => s!"{p.x} {p.y}"
+          | none => "none none"
+        s!"{s.components} {s.pixels} {showOptInt s.peak} {s.xWidth} {s.yWidth} {if inb then 1 else 0} {pp}"
       | none => "bad-op"
     | _, _, _, _, _, _ => "bad-op"
   | _ => "bad-op"
